@@ -1,20 +1,32 @@
 #!/bin/bash
-# tools/seedcheck.sh <patch.diff> <ID> [<ID>...]: applies the patch to /repo, runs the given checks (quick tier,
-# or $TIER), prints one line per check, reverts /repo.  Evidence goes to a scratch file (the committed evidence is untouched).
+# tools/seedcheck.sh <patch.diff> <ID> [<ID>...]: tries a candidate change against the given checks (quick tier, or
+# $TIER) and prints one line per check.  The change is applied to a scratch worktree of /repo's HEAD and laid over
+# /repo through the source overlay (VERIF_MUT_DIR, see vbuild.sh): /repo itself is not touched, so several of these
+# can run at once and alongside other work.  SEEDCHECK_INPLACE=1 applies the patch to /repo itself instead (and
+# reverts it), which is what a registered check would see.  Evidence goes to a scratch file.
 set -uo pipefail
 P=$1; shift
-cd /repo || exit 2
-if ! git diff --quiet; then echo "repo dirty"; exit 2; fi
-if ! git apply --check "$P" 2>/dev/null; then echo "patch does not apply: $P"; exit 2; fi
-git apply "$P"
-trap 'git -C /repo checkout -- . ; git -C /repo clean -fdq' EXIT
+EV=$(mktemp /var/tmp/seedcheck-ev-XXXXXX.json)
+if [ -n "${SEEDCHECK_INPLACE:-}" ]; then
+  cd /repo || exit 2
+  if ! git diff --quiet; then echo "repo dirty"; exit 2; fi
+  if ! git apply --check "$P" 2>/dev/null; then echo "patch does not apply: $P"; exit 2; fi
+  git apply "$P"
+  trap 'git -C /repo checkout -- . ; git -C /repo clean -fdq; rm -f $EV' EXIT
+else
+  W=$(mktemp -d /var/tmp/mut-XXXXXX); rmdir $W
+  git -C /repo worktree add -q --detach $W HEAD || exit 2
+  trap 'git -C /repo worktree remove --force $W >/dev/null 2>&1; rm -f $EV' EXIT
+  if ! git -C $W apply "$P" 2>/dev/null; then echo "patch does not apply: $P"; exit 2; fi
+  if [ -n "$(git -C $W status --short | grep -v '^ M' )" ]; then echo "note: the patch adds or deletes files; use SEEDCHECK_INPLACE=1"; fi
+  export VERIF_MUT_DIR=$W
+fi
 cd /verif
 for id in "$@"; do
-  out=$(./check $id --tier ${TIER:-quick} -evidence /var/tmp/seedcheck-ev.json 2>&1)
+  out=$(./check $id --tier ${TIER:-quick} -evidence $EV 2>&1)
   rc=$?
   sig=$(echo "$out" | grep -A1 VIOLATION | grep -v VIOLATION | grep -v '^--' | head -2 | cut -c1-330)
   echo "$id rc=$rc $(echo "$out" | grep -E "^$id tier" | sed 's/.*exhaustive/exhaustive/')"
   [ -n "$sig" ] && echo "$sig"
   if [ $rc -eq 2 ]; then echo "$out" | grep -E "ENGINE|error|cannot" | head -5; fi
 done
-rm -f /var/tmp/seedcheck-ev.json
